@@ -210,6 +210,13 @@ def io_thread_func_2d(blockshape, store_headers, headers_dict, trace_group_id,
         seismic_buffer[i, trace_length:] = np.expand_dims(seismic_buffer[i, trace_length - 1], 0)
 
 
+def read_inline_by_ordinal(seismicfile, il_ordinal):
+    # pyzgy and pyvds line accessors take a negative subscript as an index from the end, not as a line number
+    if seismicfile.filetype in (Filetype.ZGY, Filetype.VDS):
+        return seismicfile.read_inline(il_ordinal)
+    return seismicfile.iline[seismicfile.ilines[il_ordinal]]
+
+
 def io_thread_func(blockshape, store_headers, headers_dict, geom, plane_set_id, planes_to_read,
                    seismic_buffer, seismicfile, minimal_il_reader, trace_length):
     for i in range(blockshape[0]):
@@ -221,7 +228,7 @@ def io_thread_func(blockshape, store_headers, headers_dict, geom, plane_set_id, 
                     = minimal_il_reader.read_line(plane_set_id * blockshape[0] + i)
             else:
                 seismic_buffer[i, 0:len(geom.xlines), 0:trace_length] = np.asarray(
-                    seismicfile.iline[seismicfile.ilines[geom.ilines[0] + plane_set_id * blockshape[0] + i]]
+                    read_inline_by_ordinal(seismicfile, geom.ilines[0] + plane_set_id * blockshape[0] + i)
                 )[geom.xlines[0]:geom.xlines[-1]+1, :]
                 if store_headers:
                     headers = seismicfile.header[start_trace: start_trace + len(geom.xlines)]
@@ -240,7 +247,7 @@ def io_thread_func(blockshape, store_headers, headers_dict, geom, plane_set_id, 
                     = minimal_il_reader.read_line(plane_set_id * blockshape[0] + planes_to_read - 1)
             else:
                 last_populated_inline_number = geom.ilines[0] + plane_set_id * blockshape[0] + planes_to_read - 1
-                last_populated_inline = seismicfile.iline[seismicfile.ilines[last_populated_inline_number]]
+                last_populated_inline = read_inline_by_ordinal(seismicfile, last_populated_inline_number)
                 il_shape = (slice(geom.xlines[0], geom.xlines[-1] + 1), slice(None))
                 seismic_buffer[i, 0:len(geom.xlines), 0:trace_length] = np.asarray(last_populated_inline)[il_shape]
 
